@@ -41,10 +41,9 @@ def bc_reference(r, name, nondim):
     return {'tidal': (X.ZERO, X.ZERO, (2 * l + 1) / R), 'loading': (-(2 * l + 1) * rho / 3, X.ZERO, (2 * l + 1) / R), 'free': (X.ZERO, X.ZERO, X.ZERO)}[name.lower()]
 
 
-def assembled(chk, repo, rule_surface, rule_iface, rule_love, rule_intact=None, rule_bounds=None, where='TidalPy/RadialSolver/solver.pyx', rule_span=None):
+def assembled(chk, repo, rule_surface, rule_iface, rule_love, rule_intact=None, rule_bounds=None, where='TidalPy/RadialSolver/solver.pyx', rule_span=None, types=('tidal', 'loading', 'free')):
     d = X.Decider(seed=chk.seed + 81, k=2)
     seqs = layer_sequences(chk.tier)
-    types = ('tidal', 'loading', 'free')
     pi = X.atom('pi', 'pos'); G = X.atom('Gconst', 'pos')
     n_run = 0
     # the same obligations with internal non-dimensionalisation switched on: what comes back must be the dimensional solution (a subset of the sequences)
@@ -78,7 +77,7 @@ def assembled(chk, repo, rule_surface, rule_iface, rule_love, rule_intact=None, 
             for nm, got, ref in conds:
                 if got is None or not d.equal(got, ref):
                     bad.append(f'{tn}: {nm}(R) ' + ('is not defined' if got is None else 'differs from the requested value'))
-        if rule_surface is not None: chk.ob(rule_surface, f'layers {lab}: the assembled solution of every requested type (tidal, loading, free; solved together) meets its own surface condition', not bad, '; '.join(bad[:4]), where,
+        if rule_surface is not None: chk.ob(rule_surface, f'layers {lab}: the assembled solution of every requested type ({", ".join(types)}{"; solved together" if len(types) > 1 else ""}) meets its own surface condition', not bad, '; '.join(bad[:4]), where,
                key=f'{rule_surface}|surface|{lab}', method='whole-function symbolic execution of cf_radial_solver + GF(p^2) PIT')
         # ---- interfaces
         for i in range(nl - 1):
@@ -256,7 +255,8 @@ def inputs_intact(chk, repo, rule, where='TidalPy/RadialSolver/solver.pyx'):
     their original values"""
     d = X.Decider(seed=chk.seed + 83, k=2, positive=[X.atom('rho_bulk', 'pos'), X.atom('Gconst', 'pos')])
     for kinds in (('solid', 'solid'), ('solid', 'liquid-static', 'solid')):
-        for scen, extra, fail in (('normal return', {}, None), ('integration failure, success=False', {}, 1), ('integration failure raised (raise_on_fail)', {'raise_on_fail': True}, 1)):
+        for scen, extra, fail in (('normal return', {}, None), ('integration failure, success=False', {}, 1), ('integration failure raised (raise_on_fail)', {'raise_on_fail': True}, 1),
+                                  ('only the first integration of a layer fails, success=False', {'__fail_solution__': 0}, 1), ('only the first integration of a layer fails, raised (raise_on_fail)', {'raise_on_fail': True, '__fail_solution__': 0}, 1)):
             lab = ' / '.join(kinds)
             r = run_with_failure(repo, kinds, extra, fail)
             bad = []; worstK = 0
@@ -271,12 +271,15 @@ def inputs_intact(chk, repo, rule, where='TidalPy/RadialSolver/solver.pyx'):
                     if K_ is None or K_ > 8:
                         bad.append(f'{nm}[{i}] is restored only to {"an unbounded" if K_ is None else f"{float(K_):.3g} u"} relative error (more than a few ulp)'); break
                     worstK = max(worstK, K_)
+            uninit = [o for o in r.oob if 'uninitialised' in o[3]]
+            if uninit:
+                bad.append('reads memory nobody wrote: ' + '; '.join(f'element {k_} of {nm_}' for nm_, ext_, k_, kind_, ln_ in uninit[:2]))
             chk.note_analysed('restore rounding bounds', f'layers {lab}, {scen}: K <= {float(worstK):.3g}')
             so = r.solution_obj
             extra_ok = True
-            if fail is not None and not extra:
+            if fail is not None and not extra.get('raise_on_fail'):
                 extra_ok = so is not None and so.attrs.get('success') is False and bool(so.attrs.get('message'))
-            if fail is not None and extra:
+            if fail is not None and extra.get('raise_on_fail'):
                 extra_ok = r.raised is not None
             chk.ob(rule, f'layers {lab}, non-dimensionalised internally, {scen}: the caller\'s arrays are restored' + (' and the failure is reported' if fail is not None else ''), not bad and extra_ok,
                    (f'not restored: {bad[:5]}; ' if bad else '') + ('' if extra_ok else 'failure not reported as the protocol requires'), where, key=f'{rule}|whole|{lab}|{scen}',
@@ -312,6 +315,28 @@ def nan_scalars(chk, repo, rule, where='TidalPy/RadialSolver/solver.pyx'):
         chk.ob(rule, f'NaN scalar inputs, nondimensionalize={nondim}: the caller\'s arrays hold their original values on the exit taken ({"raises " + r.raised.text[:40] if r.raised is not None else "returns"})',
                not bad, f'changed: {bad[:5]}', where,
                key=(f'{rule}|' + _unparse_raise(r.raised)) if (nondim and bad and r.raised is not None and _unparse_raise(r.raised)) else f'{rule}|nan-scalars|nondim={nondim}', method='whole-function symbolic execution of cf_radial_solver with the isnan() tests holding + GF(p^2) PIT')
+
+
+def zero_scalars(chk, repo, rule, where='TidalPy/RadialSolver/solver.pyx'):
+    """a bulk density of exactly zero with internal non-dimensionalisation: every conversion factor divides by it.  Compiled without `cdivision`, the division raises inside the
+    `noexcept` conversion routine, which returns at once (arrays untouched); with `cdivision=True` the factors are infinite and the arrays are overwritten with inf / NaN before
+    any test can stop the solve.  Whatever exit is taken, the caller's five arrays hold their original values afterwards."""
+    d = X.Decider(seed=chk.seed + 90, k=2, positive=[X.atom('Gconst', 'pos')])
+    for nondim in (True,):
+        try:
+            r = SR.run_solver(repo, ('solid', 'solid'), ('tidal',), nondim, extra_kwargs={'__zero_bulk_density__': True})
+        except AnalysisError as ex:
+            chk.undecide(rule, f'zero bulk density, nondimensionalize={nondim}', f'the run could not be interpreted to its end: {str(ex)[:160]}')
+            continue
+        bad = []
+        for nm, orig in r.inputs.items():
+            for i, ov in enumerate(orig):
+                fv = r.final_arrays[nm][i]
+                if not isinstance(fv, X.Node) or not d.equal(fv, ov):
+                    bad.append(f'{nm}[{i}]'); break
+        chk.ob(rule, f'planet_bulk_density == 0, nondimensionalize={nondim}: the caller\'s arrays hold their original values on the exit taken ({"raises " + r.raised.text[:40] if r.raised is not None else "returns"})',
+               not bad, f'changed: {bad[:5]}', where, key=f'{rule}|zero-density|nondim={nondim}',
+               method='whole-function symbolic execution of cf_radial_solver; division by an exact zero follows the cdivision directive of the source it occurs in, exceptions stop at noexcept boundaries')
 
 
 def run_with_failure(repo, kinds, extra, fail_layer):
